@@ -13,8 +13,8 @@ by the integers the model uses.
 A program is a dict
     {"kind": "tx"|"plain", "mode": "fast"|"locked"|"serializable", "timeout": <u, multiple of 20>,
      "form": "ctx"|"dec", "ops": [op, ...]}
-    op = ["set",k,v] | ["incr",k,n] | ["get",k] | ["del",k] | ["expire",k(,ttl seconds)] | ["sleep",ticks] | ["raise"]
-       | ["nin",form] | ["nout"]
+    op = ["set",k,v] | ["incr",k,n] | ["get",k] | ["del",k] | ["expire",k(,ttl seconds)] | ["setx",k,v,1|0] | ["sleep",ticks]
+       | ["raise"] | ["nin",form] | ["nout"]          (setx = cache.set(k, v, exist=True|False); its result is recorded as 1/0)
        | ["gc"]  (environment event, not part of the model: an abandoned call of the decorated function is finalised
                   while this task runs; it must not affect this task)
 Keys are small ints (store key "k<i>").  A run is a pure function of (init store, programs, schedule).
@@ -318,6 +318,8 @@ def execute(init: dict, programs: list[dict], schedule: list[int], snapshot=True
                         results.append(await cache.get(key_name(op[1])))
                     elif op[0] == "del":
                         await cache.delete(key_name(op[1]))
+                    elif op[0] == "setx":
+                        results.append(1 if await cache.set(key_name(op[1]), op[2], exist=bool(op[3])) else 0)
                     elif op[0] == "expire":
                         await cache.expire(key_name(op[1]), op[2] if len(op) > 2 else 3600)
                     elif op[0] == "sleep":
